@@ -140,7 +140,7 @@ class VirtualTimeScheduler(PeriodicScheduler):
 
                 elif spinning > MAX_SPINNING:
                     if isinstance(self._clock, datetime):
-                        self.clock += timedelta(microseconds=1000)
+                        self._clock += timedelta(microseconds=1000)
                     else:
                         self._clock += 1.0
                     spinning = 0
